@@ -206,8 +206,22 @@ class SimTransport(net.Conn, asyncio.Transport):
         kind = item[0]
         if kind == "stall":
             return
+        if kind == "gap":
+            # nothing arrives for item[1] seconds: everything later on this connection is that much later (wall clock included)
+            self._last_rx = max(self._last_rx, loop._vt) + int(item[1] * 1e9)
+            wall = item[1]
+
+            def tick():
+                self.world.clock.advance_ns(int(wall * 1e9))
+
+            loop.schedule_ext(0, tick, f"rx{self.cid}:gap", self._last_rx)
+            return
 
         def cb():
+            if kind == "clockjump":
+                self.world.clock.advance_ns(int(item[1] * 1e9))
+                self.world.log("clock.jump", self.cid, item[1])
+                return
             if self._lost:
                 return
             if kind == "data":
